@@ -2,7 +2,10 @@
 
 package verifhook
 
-import "runtime"
+import (
+	"runtime"
+	"unsafe"
+)
 
 // RaceBuild reports whether the binary was built with -race.
 const RaceBuild = true
@@ -15,3 +18,9 @@ func raceOn() { runtime.RaceEnable() }
 
 // RaceErrors returns the number of race reports so far in this process.
 func RaceErrors() int { return runtime.RaceErrors() }
+
+//go:norace
+func raceReleaseMerge(a unsafe.Pointer) { runtime.RaceReleaseMerge(a) }
+
+//go:norace
+func raceAcquire(a unsafe.Pointer) { runtime.RaceAcquire(a) }
